@@ -449,3 +449,24 @@ func (i *interpreter) runtimeError(msg string) targetPanic {
 }
 
 var debugStacks = os.Getenv("GOSYM_DEBUG") != ""
+
+// concreteString forces every byte of s to a concrete value (case split
+// over the feasible values, recorded in the decision log).
+func (i *interpreter) concreteString(s value) string {
+	switch s := s.(type) {
+	case string:
+		return s
+	case symstr:
+		out := make([]byte, len(s.b))
+		for k, b := range s.b {
+			switch b := b.(type) {
+			case uint8:
+				out[k] = b
+			case *Term:
+				out[k] = byte(i.path.concretize(b))
+			}
+		}
+		return string(out)
+	}
+	panic(fmt.Sprintf("concreteString: %T", s))
+}
